@@ -71,7 +71,16 @@ type Sink struct {
 	caseDesc   []byte
 	caseID     func(int64) string
 	CaseBudget float64 // CPU seconds one case may use (0 = no watchdog)
+
+	// idle watchdog: a case during which the process consumes no CPU at all is blocked
+	IdleExempt   bool    // set by workloads that wait for child processes
+	progressCPU  float64 // process CPU seconds at the last observed progress
+	progressWall time.Time
 }
+
+// IdleLimit is how long a case may stay open while the whole process consumes (next to)
+// no CPU time before it is declared blocked.
+const IdleLimit = 45 * time.Second
 
 func cpuSeconds() float64 {
 	var ru syscall.Rusage
@@ -96,7 +105,23 @@ func (s *Sink) Watch(budget float64, caseID func(int64) string) {
 	go func() {
 		for range time.Tick(200 * time.Millisecond) {
 			s.mu.Lock()
-			used := cpuSeconds() - s.caseCPU
+			now := cpuSeconds()
+			used := now - s.caseCPU
+			// A call that is blocked (a goroutine waiting on a channel nobody serves, a read
+			// from a pipe nobody writes) consumes no CPU, so the CPU budget never runs out.
+			// It is told from a slow call by just that: a slow call on a loaded machine still
+			// runs now and then and its CPU clock advances; 20 ms in 45 s is less than any
+			// runnable process gets. The wall clock only paces the reading of the CPU clock.
+			if now-s.progressCPU > 0.02 || s.progressWall.IsZero() {
+				s.progressCPU, s.progressWall = now, time.Now()
+			}
+			if s.CaseBudget > 0 && !s.IdleExempt && s.caseDesc != nil && time.Since(s.progressWall) > IdleLimit {
+				s.Counters["violations"]++
+				s.write(&Record{Type: "violation", Monitor: "process", Class: "blocked", Detail: fmt.Sprintf("the case has been open for more than %v during which the process consumed no CPU time: the call is blocked, not slow", IdleLimit), Case: s.caseDesc, CaseID: s.caseID(s.caseIndex), Index: s.caseIndex})
+				s.flushLocked()
+				s.w.Flush()
+				os.Exit(3)
+			}
 			if s.CaseBudget > 0 && used > s.CaseBudget {
 				s.Counters["violations"]++
 				s.write(&Record{Type: "violation", Monitor: "process", Class: "cpu-budget-exceeded", Detail: fmt.Sprintf("one case used more than %.0f CPU seconds without returning", s.CaseBudget), Case: s.caseDesc, CaseID: s.caseID(s.caseIndex), Index: s.caseIndex})
@@ -129,6 +154,7 @@ func (s *Sink) Current(index int64, desc any) {
 	os.WriteFile(s.curPath, b, 0o644)
 	s.mu.Lock()
 	s.caseCPU = cpuSeconds()
+	s.progressCPU, s.progressWall = s.caseCPU, time.Now()
 	s.caseIndex = index
 	s.caseDesc, _ = json.Marshal(desc)
 	s.sinceFlush++
